@@ -163,3 +163,17 @@ Example C16_select_example :
   select_next 2 [((0, [0]), true); ((1, [0]), false); ((2, [1]), false); ((3, [1]), false); ((4, [2]), false)]
               [(4, 0); (2, 5); (3, 1); (1, 7)] [] = Ok ([2; 3], Some 3).
 Proof. vm_compute. reflexivity. Qed.
+
+(* ---- the constructor (Generated/SrcInits.v): KPerSamplePlatePolicy.__init__ stores k, so the `self.k` the translated method reads
+   (the parameter k of C16_model_is_source) is the k the policy was constructed with ---- *)
+From Batchie Require Import Lib.PyRt Generated.SrcInits Proofs.C16Source_Init_Policy Proofs.C16Source_ConstructedPolicy.
+Theorem C16_model_is_source_init : forall k : Z, src_k_per_sample_init k = Ok k.
+Proof. exact src_k_per_sample_init_stores. Qed.
+Print Assumptions C16_model_is_source_init.
+
+(* the translated __init__ composed with the translated method: the policy constructed with k is the model's filter for k *)
+Theorem C16_source_constructed_policy : forall k batch remaining,
+  (dor k' <- src_k_per_sample_init k; src_filter_eligible_plates k' batch remaining) = filter_eligible k batch remaining.
+Proof. exact constructed_policy_filters_with_its_k. Qed.
+Print Assumptions C16_source_constructed_policy.
+
